@@ -165,7 +165,28 @@ class TemplateGen:
         if r < 0.36:
             return M.Expression([M.Symbol("unquote"), M.Expression([M.Symbol(rng.choice(["unpack-iterable", "unpack-mapping"])),
                                                                     self.fresh(True)])])
+        if r < 0.41:
+            return self.headed_non_expression(depth)
         return None
+
+    def headed_non_expression(self, depth):
+        """a list / tuple / set / dict / FComponent / FString whose first element is the symbol unquote, unquote-splice or
+        quasiquote: NOT an operator form (only expressions are), so it stays literal -- and unquotes inside it are active"""
+        rng, M = self.rng, self.M
+        head = M.Symbol(rng.choice(HEADS_UNQ + HEADS_SPL + ["quasiquote", "quasiquote"]))
+        rest = []
+        for _ in range(rng.choice([1, 1, 2, 3])):
+            c = rng.random()
+            if c < 0.35:
+                rest.append(self.fresh(False))                                            # literal (g i): never evaluated
+            elif c < 0.6:
+                rest.append(M.Expression([M.Symbol("unquote"), self.arg(False)]))          # active
+            elif c < 0.75:
+                rest.append(M.Expression([M.Symbol("unquote-splice"), self.arg(True)]))    # active
+            else:
+                rest.append(self.g.tree(max(depth - 1, 0), self.leaf))
+        cls = rng.choice([M.List, M.List, M.Tuple, M.Set, M.Dict, M.FComponent, M.FString])
+        return cls([head] + rest)
 
     def leaf_nested(self, depth):
         rng, M = self.rng, self.M
@@ -197,6 +218,10 @@ CORPUS = [
     ("{~(g 0) ~@(g 1)}", {0: "k", 1: ("v", "w", "x")}),
     ("#(1-0j ~(g 0))", {0: complex(1, -0.0)}),
     ("(a ~[(g 0) 2] ~(or (g 1) [9]) ~5 ~\"s\" ~:k ~None ~True)", {0: 1, 1: 0}),
+    ("(defn f [unquote (g 0)] (g 1))", {0: 5, 1: 6}),
+    ("(a #{unquote-splice (g 0)} [quasiquote ~(g 1)] #(unquote (g 0)) {unquote-splice (g 0)})", {0: [1, 2], 1: 7}),
+    ("[unquote (g 0)]", {0: 5}),
+    ("(a `[unquote ~(g 0) ~~(g 1)])", {0: 1, 1: 2}),
     ("(a ~@{\"k\" (g 0)} b)", {0: 5}),
     ("[a ~@#{(g 0) (g 0) (g 0)} b]", {0: 5}),
     ("(a `(b ~~@{\"k\" (g 0)}))", {0: 5}),
@@ -271,7 +296,8 @@ def run(chk):
     chk.rule = ("templates: random model trees (all classes/attributes as in C30) with unquote / unquote-splice forms "
                 "(also spelled unquote_splice and with a full-width letter) placed at random depths in every sequence kind "
                 "incl. FString/FComponent, nested quasiquotes up to 3 levels with singly (literal) and doubly (active) "
-                "unquoted forms, malformed unquotes; unquoted forms are calls (g i) of a logging function or literal "
+                "unquoted forms, malformed unquotes, non-expression sequences (list/tuple/set/dict/FComponent/FString) whose first element is the symbol "
+                "unquote / unquote-splice / quasiquote (literal, not operator forms); unquoted forms are calls (g i) of a logging function or literal "
                 "forms; values: models, ints, bools, None, floats by bits, complex, str, bytes, nested lists/tuples, "
                 "opaque objects, sets and dicts, falsy values and non-iterables for splices, raising calls; unquote operands also "
                 "literal list / tuple / set / dict displays with repeated members, repeated keys and calls inside; non-trivial = distinct "
